@@ -30,6 +30,15 @@ def cases(tier, seed):
     for t in triples:
         yield {'kind': 'reject', 'triple': list(t), 'bound': 0}
     yield {'kind': 'reject', 'triple': [1, 1, 3], 'bound': bound}
+    # other legal ways of raising the refusal: an explanation as further argument, keywords, fields set after construction
+    for style in ('extra-arg', 'keywords', 'late-fields'):
+        for t in ((1, 1, 7), (2, 3, 2)):
+            yield {'kind': 'reject', 'triple': list(t), 'bound': 0, 'style': style}
+    # the operating system reports an error when the side that learns of the ending closes its connection: what it was told by the
+    # peer is what it reports all the same
+    yield {'kind': 'reject', 'triple': [1, 1, 3], 'bound': 0, 'close_error': 'c'}
+    yield {'kind': 'abort', 'who': 'acceptor', 'when': 'between', 'reason': 6, 'bound': 0, 'close_error': 'c'}
+    yield {'kind': 'abort', 'who': 'requestor', 'when': 'between', 'reason': 2, 'bound': 0, 'close_error': 's'}
     for who in ('requestor', 'acceptor'):
         for when in ('before', 'between', 'during'):
             for reason in (0, 1, 2, 3, 4, 5, 6, 255):
@@ -66,6 +75,15 @@ def make_scenario(case, obs):
         class SrvAE(applicationentity.AE):
             def on_association_request(self, asce, assoc_rq):
                 if kind == 'reject':
+                    r, s_, d = case['triple']
+                    if case.get('style') == 'extra-arg':
+                        raise exceptions.AssociationRejectedError(r, s_, d, 'called AE title not recognised here')
+                    if case.get('style') == 'keywords':
+                        raise exceptions.AssociationRejectedError(diagnostic=d, result=r, source=s_)
+                    if case.get('style') == 'late-fields':
+                        exc = exceptions.AssociationRejectedError(1, 1, 1)
+                        exc.result, exc.source, exc.diagnostic = r, s_, d
+                        raise exc
                     raise exceptions.AssociationRejectedError(*case['triple'])
                 if kind == 'abort' and case['when'] == 'on-request':
                     asce.abort(case['reason'])
@@ -110,6 +128,7 @@ def make_scenario(case, obs):
                 else:
                     results['srv_release'] = type(self.release()).__name__
             ae.vp_loop = loop
+        net.close_error_for = case.get('close_error')
         net.listen(('srv', 104), serve(ae))
         cae = applicationentity.ClientAE('SCU', None, 16384).add_scu(sopclass.verification_scu)
 
@@ -346,7 +365,7 @@ def run_case(case):
     for s, m in viol:
         dedup.setdefault(s, m)
     return {'viol': list(dedup.items()), 'case': dict(case, schedule=first_bad[0]) if viol else None,
-            'key': (case['kind'], str(case.get('triple')), case.get('who'), case.get('when'), case.get('reason'), case['bound'], case.get('in_handler')),
+            'key': (case['kind'], str(case.get('triple')), case.get('who'), case.get('when'), case.get('reason'), case['bound'], case.get('in_handler'), case.get('style'), case.get('close_error')),
             'count': {'schedules': stats['executions'], 'decisions': stats['decisions'], 'capped': int(stats['capped'])},
             'outcomes': len(outcomes),
             'sample': dict(case, schedules=stats['executions'], points=stats['max_points']) if case['bound'] else None}
